@@ -213,7 +213,8 @@ type omapIter struct {
 
 func (m *omap) iterator(i *interpreter) iter {
 	it := &omapIter{i: i, m: m}
-	if i.path != nil && i.path.permute && m != nil && m.live > 1 && m.live <= 3 && inConsulCode(i.curFn) {
+	if i.path != nil && i.path.permute && m != nil && m.live > 1 && m.live <= 3 && inConsulCode(i.curFn) &&
+		(i.path.permuteIn == "" || strings.Contains(i.curFn.String(), i.path.permuteIn)) {
 		it.perm = true
 		it.seen = map[*mapEntry]bool{}
 		if debugConc && i.curFn != nil {
